@@ -149,6 +149,26 @@ theorem C04_reserved_words_stay_constants {addr : Ref → Int} (hinj : Injective
   have := (reach1_inv hinj cfg reqs).recs i _ hget
   rcases ht with rfl | rfl | rfl <;> simp [keyOk] at this <;> simp [this]
 
+/-- **One Identifier per spelling, in every Lexicon of a process.**  After any process history (requests addressed to any
+    number of Lexicons in any interleaving, Lexicons destroyed and replaced at any time — `procRun`), every Identifier node
+    spelled `w` that Lexicon `k` holds is the node `get_identifier(w)` answers when it is asked of Lexicon `k`. -/
+theorem C04_one_identifier_in_process {addr : Ref → Int} (hinj : Injective addr) {cfg : Config} (hw : cfg.Wf) (evs : List Ev)
+    (k : Nat) (r : Ref) (w : List Int)
+    (hs : identSpelling cfg ((procRun addr cfg Proc.fresh evs).1 k).heap r = some w) :
+    (procStep addr cfg (procRun addr cfg Proc.fresh evs).1 (.req k (.identifierW w))).2 = some (some r) := by
+  have hst := procRun_state addr cfg evs Proc.fresh (fun _ => []) (by intro i; simp [Proc.fresh, run1, runWith]) k
+  simp only [procStep]
+  rw [hst] at hs ⊢
+  rw [C04_one_identifier hinj hw _ r w hs]
+
+/-- The reserved words are constants of the process, the same in every Lexicon at every time: the answer to
+    `get_identifier(w)`, `get_string(w)` for a reserved `w` does not depend on the Lexicon's state at all. -/
+theorem C04_reserved_word_same_in_every_lexicon (addr : Ref → Int) (cfg : Config) (s s' : State1) (w : List Int) (k : Nat)
+    (hk : wordIdx cfg w = some k) :
+    (exec1 addr cfg s (.identifierW w)).2 = some (.stat (.ident k)) ∧ (exec1 addr cfg s' (.identifierW w)).2 = some (.stat (.ident k)) := by
+  constructor <;> simp [exec1, execWith, Req.operands, plan, planIdentifier, hk, runPlan] <;>
+    (split <;> simp_all [planIdentifier, runPlan])
+
 /-! ### Non-vacuity -/
 
 def exCfg4 : Config := { words := [wC, wCxx, wDefault, wFalse, [105, 110, 116], wThis, wVoid], builtinWords := [4, 6] }
